@@ -142,6 +142,9 @@ def gen_install(rng, tier):
     big = tier == "thorough"
     for i in range(200 if big else 30):
         ops = ["start"]
+        # the membership and the node addresses travel in the snapshot's header
+        if rng.random() < 0.8:
+            ops += ["req members %d 1" % rng.randrange(3), "req nodeaddr %d %d" % (rng.randrange(4), rng.randrange(40))]
         ops += reqs(rng, rng.randrange(1, 25), only=rng.choice([None, None, "cfg", "ns", "tbl", "seq", "inst"]))
         ops += ["flush 100", "compact L"]
         behind = 0
@@ -170,7 +173,7 @@ def gen_install(rng, tier):
                 ops += ["restart N", "dumpn"]
         cases.append(Case("install-%d" % i, ops, True, "random"))
     # directed: first-time joiner that applies nothing after the installation; a joiner that fell behind
-    d1 = ["start", "req cfgset 1 1", "req nsset 1 1", "req tblset 0 1", "flush 10", "compact L", "install L N", "restart N", "dumpn",
+    d1 = ["start", "req members 1 1", "req nodeaddr 2 7", "req cfgset 1 1", "req nsset 1 1", "req tblset 0 1", "flush 10", "compact L", "install L N", "restart N", "dumpn",
           "restart N", "dumpn"]
     d2 = ["start", "req cfgset 1 1", "req cfgset 2 2", "flush 10", "compact L", "install L N", "catchup 1", "restart N", "dumpn",
           "req cfgset 3 3", "req cfgrm 1 0", "req cfgset 4 4", "flush 10", "compact L", "req cfgset 5 5", "flush 10",
